@@ -311,10 +311,11 @@ Qed.
 
 End Proofs.
 
-(* `vars: {x}; a: "${x}"` and `vars: {a: 1}; x: ${a.b}`: nil dereferences (replayed on the real compiler) *)
+(* `vars: {a: 1}; x: ${a.b}`: nil dereference (replayed on the real compiler); `vars: {x}; a: "${x}"` is reported
+   as an error since /repo 9d408296b *)
 Lemma crash_witnesses :
-  subst_root keq_ascii [T [118;97;114;115] None [] true [T [120] None [] false []];
-                        T [97] (Some (Sc KDq [BSub [[120]]])) [] false []] = Crash /\
   subst_root keq_ascii [T [118;97;114;115] None [] true [T [97] (Some (Sc KAtom [BStr [49]])) [] false []];
-                        T [120] (Some (Sc KUnq [BSub [[97];[98]]])) [] false []] = Crash.
+                        T [120] (Some (Sc KUnq [BSub [[97];[98]]])) [] false []] = Crash /\
+  subst_root keq_ascii [T [118;97;114;115] None [] true [T [120] None [] false []];
+                        T [97] (Some (Sc KDq [BSub [[120]]])) [] false []] = Err.
 Proof. vm_compute. auto. Qed.
